@@ -128,8 +128,15 @@ def make_policy(tok):
     if a == "none":
         return None, ("default",)
     ids = frozenset() if a == "." else frozenset(int(v) for v in a.split(","))
-    # a predicate may answer None for "no" (bool | None in the signature)
-    return (lambda zone, v, ids=ids: True if v.id in ids else (None if v.id % 2 else False)), ("allowed", ids)
+    # a predicate may answer None for "no" (bool | None in the signature) - and callers pass callables answering with
+    # any truthy / falsy object
+    yes = (True, 1, "yes", [0])
+    no = (False, None, 0, "", [])
+    return (lambda zone, v, ids=ids: yes[v.id % 4] if v.id in ids else no[v.id % 5]), ("allowed", ids)
+
+
+class BoomBase(BaseException):
+    """not an Exception: what a KeyboardInterrupt-like event inside a `with zone.writer()` body looks like"""
 
 
 class Run:
@@ -137,12 +144,15 @@ class Run:
         self.zkind = zkind
         self.absolute = absolute
         self.policy = ("default",)
+        self.calls = 0  # rotates positional / keyword call forms
         if ctor is not None:
-            # the policy handed to the constructor (the second place a policy is installed)
+            # the policy handed to the constructor (the second place a policy is installed); all four parameters positionally
             fn, self.policy = make_policy(ctor)
-            self.zone = ZONES[zkind](ORIGIN, relativize=not absolute, pruning_policy=fn)
+            self.zone = ZONES[zkind](ORIGIN, dns.rdataclass.IN, not absolute, fn)
+        elif absolute:
+            self.zone = ZONES[zkind]("example.", relativize=False)  # origin as text
         else:
-            self.zone = ZONES[zkind](ORIGIN, relativize=not absolute)
+            self.zone = ZONES[zkind](ORIGIN)
         self.oname = ORIGIN if absolute else dns.name.empty
         self.cid = {(): 0}  # deep dump -> content id
         self.readers = {}  # handle -> txn
@@ -194,7 +204,8 @@ class Run:
                 elif kind == "I":
                     h, i = rest.split(":")
                     h = int(h)
-                    txn = z.reader(id=int(i))
+                    self.calls += 1
+                    txn = z.reader(id=int(i)) if self.calls % 2 else z.reader(int(i))
                 elif kind == "B":
                     h, i, sn = rest.split(":")
                     h = int(h)
@@ -202,7 +213,8 @@ class Run:
                 else:
                     h, s = rest.split(":")
                     h = int(h)
-                    txn = z.reader(serial=int(s))
+                    self.calls += 1
+                    txn = z.reader(serial=int(s)) if self.calls % 2 else z.reader(None, int(s))
                 self.readers[h] = txn
                 d = dump_txn(txn)
                 self.open_dump[h] = d
@@ -226,7 +238,8 @@ class Run:
                     # was never deregistered
                     raise RuntimeError("writer() would block: a finished write transaction is still registered")
                 repl = (self.zkind == "btree" and len(self.committed) == 1) or (len(self.committed) % 5 == 4)
-                self.wtxn = z.writer(replacement=repl)
+                self.calls += 1
+                self.wtxn = z.writer(replacement=repl) if self.calls % 2 else z.writer(repl)
                 return "ok"
             if tok[0] == "C":
                 c, sn, ch = tok[1:].split(":")
@@ -242,13 +255,29 @@ class Run:
                 self.wtxn = None
                 return "ok"
             if tok == "R":
-                self.wtxn.rollback()
-                self.wtxn = None
+                self.calls += 1
+                txn, self.wtxn = self.wtxn, None
+                if self.calls % 3 == 0:
+                    txn.rollback()
+                else:
+                    # leave the `with` body by an exception (an Exception, or a BaseException like KeyboardInterrupt):
+                    # everything written so far is dropped and the write ends
+                    exc = ValueError if self.calls % 3 == 1 else BoomBase
+                    try:
+                        with txn:
+                            txn.replace(self.N(1), dns.rdataset.from_text("IN", "TXT", 60, '"never committed"'))
+                            raise exc("leaving the transaction")
+                    except exc:
+                        pass
                 return "ok"
             if tok[0] == "M":
                 a = tok[1:]
                 n = None if a == "none" else int(a)
-                z.set_max_versions(n)
+                self.calls += 1
+                if self.calls % 2:
+                    z.set_max_versions(n)
+                else:
+                    z.set_max_versions(max_versions=n)
                 self.policy = ("unlimited",) if n is None else ("max", n)
                 return "ok"
             if tok[0] == "P":
@@ -905,6 +934,13 @@ def eval_immhist(ctx: Ctx, case: dict):
             if not o.is_immutable():
                 fails.append((f"C11/{zk}/immutability/{type(o).__name__}.is_immutable/false",
                               f"{label} for {owner}: a {type(o).__name__} inside a committed version says is_immutable() == False"))
+        tw = mutable_twin(o, z)
+        if tw is not None and isinstance(o, (dns.node.Node, dns.rdataset.Rdataset)):
+            t = tw[0]
+            if not (o == t and t == o) or (o != t) or (t != o) or not (o == o):
+                fails.append((f"C11/{zk}/immutability/{type(o).__name__}.__eq__/asymmetric",
+                              f"{label} for {owner}: the snapshot object and a mutable object with the same content compare "
+                              f"o==t {o == t}, t==o {t == o}, o!=t {o != t}, t!=o {t != o}"))
         n, problem = attack(o, z, pool, changed)
         calls += n
         if problem is not None:
@@ -1560,6 +1596,48 @@ def gen_cow(rng, zk):
     return {"kind": "cow", "zone": zk, "txns": txns}
 
 
+
+# ------------------------------------------------------------------------------------------------
+# sizes beyond the comfortable: hundreds of retained versions and dozens of readers
+# ------------------------------------------------------------------------------------------------
+def eval_bigversions(ctx: Ctx, case: dict):
+    """keep-all, `n` commits with readers pinned along the way, some closed again, then a policy that prunes hard;
+    the invariant monitor runs on the final states only (dumping hundreds of versions after every operation is
+    quadratic), the model is compared on the last operation of each phase"""
+    zk = case["zone"]
+    n, step = case["n"], case["step"]
+    run = Run(zk)
+    fails = []
+    toks = ["Mnone"]
+    run.apply("Mnone")
+    h = 0
+    for c in range(1, n + 1):
+        for tok in ("w", f"C{c}:{c % 7}:1"):
+            run.apply(tok)
+            toks.append(tok)
+        if c % step == 0:
+            h += 1
+            tok = f"oI{h}:{c - (h % 3)}" if h % 2 else f"oL{h}"
+            run.apply(tok)
+            toks.append(tok)
+    phases = [[f"c{x}" for x in range(1, h + 1, 3)], [case["policy"]], [f"c{x}" for x in range(2, h + 1)], ["Pnone"]]
+    for ph in phases:
+        for tok in ph:
+            before = (list(run.zone._versions), run.policy)
+            out = run.apply(tok)
+            toks.append(tok)
+        monitor(run, tok, out, before, fails)
+        ctx.corr("c11.last " + " ".join(toks), f"ok {out}|{run.state_tok()}", case)
+        ctx.count(f"big.{zk}.retained={len(run.zone._versions)}")
+    close_all(run)
+    seen = set()
+    for sig, what in fails:
+        if sig not in seen:
+            seen.add(sig)
+            ctx.fail(sig, what, {"kind": "bigversions", "case": case})
+    return fails
+
+
 class Hang(BaseException):
     pass
 
@@ -1588,6 +1666,8 @@ def eval_case(ctx: Ctx, case: dict):
             return eval_lockhook(ctx, case)
         if case["kind"] == "cow":
             return eval_cow(ctx, case)
+        if case["kind"] == "bigversions":
+            return eval_bigversions(ctx, case)
     except Exception as e:  # noqa: BLE001 - e.g. the zone constructor itself raises (the initial version is pruned away)
         import traceback
 
@@ -1622,7 +1702,7 @@ def gen_history(rng, zk):
             if writer:
                 y = rng.below(10)
                 if y < 7:
-                    s = rng.choice([serial, None, (serial or 0) + 1, rng.below(5)])
+                    s = rng.choice([serial, None, ((serial or 0) + 1) % 2 ** 32, rng.below(5), rng.choice([0, 2 ** 31 - 1, 2 ** 31, 2 ** 32 - 1])])
                     ops.append(f"C{next_c}:{'-' if s is None else s}:1")
                     serial = s
                     if s is not None:
@@ -1757,7 +1837,7 @@ def generate(ctx: Ctx, scale: int, rng):
         c = gen_immhist(rng, "btree" if i % 3 else "versioned")
         ctx.case(case_key(c), True, sample=c if i < 2 else None)
         eval_case(ctx, c)
-    for i in range(1600 * scale):
+    for i in range(1200 * scale):
         zk = "versioned" if i % 2 == 0 else "btree"
         c = executable(gen_history(rng, zk))
         ctx.case(case_key(c), nontrivial(c), sample=c if len(c["ops"]) <= 12 else None)
@@ -1781,6 +1861,10 @@ def run(ctx: Ctx):
             c = {"kind": "immutability", "zone": zk, "fresh": fresh, "extended": extended}
             ctx.case(case_key(c))
             eval_case(ctx, c)
+    for zk, pol in (("versioned", "M3"), ("btree", "Q1:1")):
+        c = {"kind": "bigversions", "zone": zk, "n": 400, "step": 9, "policy": pol}
+        ctx.case(case_key(c))
+        eval_case(ctx, c)
     for zk in ZONES:
         for txns in COW_BOUNDARY:
             c = {"kind": "cow", "zone": zk, "txns": txns}
